@@ -1,5 +1,920 @@
+(* C02 / C08 - lemmas about Model_Update (the UPDATE decoder) against Spec_Wire (the RFC reference).
+   fixed = true is the repaired generation (dec_update), fixed = false the pinned tree (dec_update_pinned). *)
 From Coq Require Import ZArith List Bool Lia.
-From ExaV Require Import gen.Gen_AttrTable gen.Gen_NlriRegistry model.Model_Nlri model.Model_Update spec.Spec_Wire.
+From ExaV Require Import gen.Gen_AttrTable gen.Gen_NlriRegistry model.Model_Nlri model.Model_Update spec.Spec_Wire proofs.Proofs_Nlri.
 Import ListNotations.
 Open Scope Z_scope.
-Lemma placeholder_true : True. Proof. exact I. Qed.
+(* C02 / C08 - lemmas about Model_Update (the UPDATE decoder) against Spec_Wire (the RFC reference).
+   fixed = true is the repaired generation (dec_update), fixed = false the pinned tree (dec_update_pinned). *)
+
+
+(* ------------------------------------------------------------------ small facts *)
+
+Lemma hasbit_ext f : hasbit f F_EXTENDED_LENGTH = f_extended f.
+Proof.
+  unfold hasbit, f_extended, F_EXTENDED_LENGTH.
+  destruct ((f / 16) mod 2 =? 1) eqn:E; destruct (16 <=? f mod 32) eqn:E2; try reflexivity;
+  [apply Z.eqb_eq in E; apply Z.leb_gt in E2 | apply Z.eqb_neq in E; apply Z.leb_le in E2];
+  exfalso; revert E E2; 
+  pose proof (Z.div_mod f 16 ltac:(lia)); pose proof (Z.mod_pos_bound f 16 ltac:(lia));
+  pose proof (Z.div_mod (f / 16) 2 ltac:(lia)); pose proof (Z.mod_pos_bound (f / 16) 2 ltac:(lia));
+  pose proof (Z.div_mod f 32 ltac:(lia)); pose proof (Z.mod_pos_bound f 32 ltac:(lia));
+  lia.
+Qed.
+
+Lemma blen_zlen l : blen l = zlen l. Proof. reflexivity. Qed.
+
+Lemma ahas_aadd m a : ahas (aadd m a) (a_code a) = true.
+Proof.
+  unfold aadd. destruct (ahas m (a_code a)) eqn:E; [exact E|].
+  unfold ahas. rewrite existsb_app. cbn. rewrite Z.eqb_refl. now rewrite orb_true_r.
+Qed.
+
+Lemma ahas_aadd_keep m a c : ahas m c = true -> ahas (aadd m a) c = true.
+Proof.
+  intros H. unfold aadd. destruct (ahas m (a_code a)); [exact H|].
+  unfold ahas in *. rewrite existsb_app, H. reflexivity.
+Qed.
+
+(* ------------------------------------------------------------------ C08_no_overrun *)
+
+Definition has_taw (m : amap) : bool := ahas m CODE_TREAT_AS_WITHDRAW.
+
+Definition parse_refuses (r : pres) : Prop :=
+  match r with POk m => has_taw m = true | PNotify _ _ => True | PExc => True end.
+
+Lemma taw_has m aid : has_taw (aadd m (taw aid)) = true.
+Proof. unfold has_taw. exact (ahas_aadd m (taw aid)). Qed.
+
+Lemma parse_block_malformed opq s : forall fuel d m,
+  tlvs fuel d = None -> parse_refuses (parse fuel true opq s d m).
+Proof.
+  induction fuel as [|f IH]; intros d m H.
+  - destruct d as [|fl [|c rest]]; cbn in H; try discriminate.
+    + cbn. apply taw_has.
+    + cbn [parse next_tlv].
+      destruct (if hasbit fl F_EXTENDED_LENGTH then match rest with h :: l :: r => Some (h * 256 + l, r) | _ => None end
+                else match rest with l :: r => Some (l, r) | _ => None end) as [[len body]|];
+      [destruct (true && (zlen body <? len))|]; cbn; auto using taw_has.
+  - destruct d as [|fl [|c rest]]; cbn [tlvs] in H; try discriminate.
+    { cbn. apply taw_has. }
+    cbn [parse next_tlv]. rewrite hasbit_ext.
+    destruct (if f_extended fl then match rest with h :: l :: r => Some (h * 256 + l, r) | _ => None end
+              else match rest with l :: r => Some (l, r) | _ => None end) as [[len body]|] eqn:Eh.
+    2:{ cbn. apply taw_has. }
+    rewrite blen_zlen in H. cbn [andb].
+    destruct (zlen body <? len) eqn:El.
+    { cbn. apply taw_has. }
+    destruct (tlvs f (skipn (Z.to_nat len) body)) eqn:Et; [discriminate|].
+    destruct (step true opq s fl c len (firstn (Z.to_nat len) body) m); cbn; auto.
+Qed.
+
+Lemma split_sections b w a n : sections b = Some (w, a, n) -> split b = SplitOk w a n.
+Proof.
+  unfold sections, split, blen, zlen, be16, rd16.
+  destruct (Z.of_nat (length b) <? 4); [discriminate|].
+  destruct (Z.of_nat (length b) <? 4 + (nth 0 b 0 * 256 + nth 1 b 0)); [discriminate|].
+  match goal with |- context [Z.of_nat (length b) <? ?x] => destruct (Z.of_nat (length b) <? x) end; [discriminate|].
+  intros H. injection H as <- <- <-. reflexivity.
+Qed.
+
+Lemma has_taw_remove m c : c <> CODE_TREAT_AS_WITHDRAW -> has_taw m = true -> has_taw (aremove m c) = true.
+Proof.
+  intros Hc. unfold has_taw, ahas, aremove. induction m as [|a m IH]; cbn; [auto|].
+  destruct (a_code a =? CODE_TREAT_AS_WITHDRAW) eqn:E; cbn.
+  - intros _. apply Z.eqb_eq in E. destruct (a_code a =? c) eqn:E2; cbn.
+    + apply Z.eqb_eq in E2. congruence.
+    + rewrite (proj2 (Z.eqb_eq _ _) E). reflexivity.
+  - intros H. destruct (a_code a =? c); cbn; [auto|]. rewrite E. cbn. auto.
+Qed.
+
+Definition no_announce (o : outcome) : Prop :=
+  match o with
+  | Refused _ _ => True
+  | PyError => True        (* only an abstracted value decoder raising an untyped exception *)
+  | EndOfRib _ _ => False
+  | Decoded u => u_ann u = [] /\ has_taw (u_attrs u) = true
+  end.
+
+Lemma unpack_attrs_refuses opq s ab :
+  parse_refuses (parse (length ab) true opq s ab []) -> parse_refuses (unpack_attrs true opq s ab).
+Proof.
+  intros P. unfold unpack_attrs.
+  destruct (parse (length ab) true opq s ab []) as [m| |]; cbn in *; auto.
+  unfold post_parse. unfold has_taw in P. rewrite P. exact P.
+Qed.
+
+Lemma payload_taw opq s b :
+  match parse_payload true opq s b with
+  | (Decoded u, m, _) => has_taw m = true -> u_ann u = [] /\ has_taw (u_attrs u) = true
+  | _ => True
+  end.
+Proof.
+  unfold parse_payload.
+  destruct (split b) as [wb ab nb|]; [|exact I].
+  destruct (unpack_attrs true opq s ab) as [m| |]; try exact I.
+  destruct (nlri_loop (length wb) true _ 1 1 wb); [|exact I].
+  destruct (nlri_loop (length nb) false _ 1 1 nb); [|exact I].
+  destruct (match bytes_of (aget m A_MP_UNREACH_NLRI) with Some v => mp_unreach_routes s v | None => Some [] end); [|exact I].
+  destruct (match bytes_of (aget m A_MP_REACH_NLRI) with Some v => mp_reach_routes s v | None => Some [] end); [|exact I].
+  cbn [andb]. destruct (ahas m CODE_TREAT_AS_WITHDRAW) eqn:Ht.
+  - intros _. cbn [u_ann u_attrs]. split; [reflexivity|].
+    apply has_taw_remove; [discriminate|]. apply has_taw_remove; [discriminate|]. exact Ht.
+  - unfold has_taw. rewrite Ht. discriminate.
+Qed.
+
+Lemma payload_refuses opq s b wb ab nb :
+  sections b = Some (wb, ab, nb) -> parse_refuses (parse (length ab) true opq s ab []) ->
+  match parse_payload true opq s b with
+  | (Refused _ _, _, _) | (PyError, _, _) => True
+  | (Decoded u, _, _) => u_ann u = [] /\ has_taw (u_attrs u) = true
+  | (EndOfRib _ _, _, _) => False
+  end.
+Proof.
+  intros Hs Ht. pose proof (payload_taw opq s b) as P. revert P.
+  unfold parse_payload. rewrite (split_sections _ _ _ _ Hs).
+  pose proof (unpack_attrs_refuses opq s ab Ht) as R.
+  destruct (unpack_attrs true opq s ab) as [m| |]; try (intros; exact I). cbn in R.
+  destruct (nlri_loop (length wb) true _ 1 1 wb); [|intros; exact I].
+  destruct (nlri_loop (length nb) false _ 1 1 nb); [|intros; exact I].
+  destruct (match bytes_of (aget m A_MP_UNREACH_NLRI) with Some v => mp_unreach_routes s v | None => Some [] end); [|intros; exact I].
+  destruct (match bytes_of (aget m A_MP_REACH_NLRI) with Some v => mp_reach_routes s v | None => Some [] end); [|intros; exact I].
+  cbn [andb]. unfold has_taw in R. rewrite R. intros P. apply P. exact R.
+Qed.
+
+Lemma list_eqb_true a b : list_eqb a b = true -> a = b.
+Proof.
+  revert b; induction a as [|x a IH]; intros [|y b]; cbn; try discriminate; auto.
+  intros H. apply andb_prop in H as [H1 H2]. apply Z.eqb_eq in H1. f_equal; auto.
+Qed.
+
+(* the two End-of-RIB marker shapes have a well-formed attribute block: none, or one MP_UNREACH_NLRI *)
+Lemma marker_blocks b wb ab nb :
+  sections b = Some (wb, ab, nb) ->
+  ((zlen b =? EOR_V4_LENGTH) && list_eqb b [0;0;0;0] = true -> tlvs (length ab) ab = Some [])
+  /\ ((zlen b =? EOR_PREFIX_LENGTH) && is_prefix EOR_PREFIX b = true ->
+      exists x y z, tlvs (length ab) ab = Some [mkRaw 144 15 [x; y; z]]).
+Proof.
+  intros Hs. split; intros E.
+  - apply andb_prop in E as [_ E]. apply list_eqb_true in E. subst b. cbn in Hs. injection Hs as <- <- <-. reflexivity.
+  - apply andb_prop in E as [El Ep]. apply Z.eqb_eq in El. unfold is_prefix in Ep. apply list_eqb_true in Ep.
+    unfold zlen, EOR_PREFIX_LENGTH in El.
+    do 12 (destruct b as [|? b]; [cbn in El; try lia|]). 2:{ cbn [length] in El. lia. }
+    cbn in Ep. injection Ep as <- <- <- <- <- <- <- <-. cbn in Hs. injection Hs as <- <- <-.
+    do 3 eexists. reflexivity.
+Qed.
+
+Lemma refuses_no_announce opq s b wb ab nb :
+  sections b = Some (wb, ab, nb) -> parse_refuses (parse (length ab) true opq s ab []) ->
+  (zlen b =? EOR_V4_LENGTH) && list_eqb b [0;0;0;0] = false ->
+  (zlen b =? EOR_PREFIX_LENGTH) && is_prefix EOR_PREFIX b = false ->
+  no_announce (dec_update opq s b).
+Proof.
+  intros Hs Ht E1 E2. unfold dec_update, dec_update_gen. rewrite E1, E2.
+  pose proof (payload_refuses opq s b wb ab nb Hs Ht) as P.
+  destruct (parse_payload true opq s b) as [[o m] ab']. destruct o as [c sc| |a sf|u]; cbn; auto.
+  destruct P as [Pa Pt]. 
+  assert (En : is_nil (u_attrs u) = false).
+  { destruct (u_attrs u); [cbn in Pt; discriminate|reflexivity]. }
+  rewrite En. cbn. auto.
+Qed.
+
+Theorem no_overrun opq s b wb ab nb :
+  sections b = Some (wb, ab, nb) -> tlvs (length ab) ab = None -> no_announce (dec_update opq s b).
+Proof.
+  intros Hs Ht. destruct (marker_blocks b wb ab nb Hs) as [M1 M2].
+  apply (refuses_no_announce opq s b wb ab nb Hs).
+  - apply parse_block_malformed. exact Ht.
+  - destruct ((zlen b =? EOR_V4_LENGTH) && list_eqb b [0;0;0;0]); [|reflexivity]. rewrite M1 in Ht by reflexivity. discriminate.
+  - destruct ((zlen b =? EOR_PREFIX_LENGTH) && is_prefix EOR_PREFIX b); [|reflexivity].
+    destruct (M2 eq_refl) as (x & y & z & M). rewrite M in Ht. discriminate.
+Qed.
+
+
+(* ------------------------------------------------------------------ AS4 merge *)
+
+Lemma path_count_hops p : path_count p = path_hops p.
+Proof.
+  unfold path_count, path_hops, sumz. induction p as [|[t a] p IH]; cbn [map fold_right]; [reflexivity|].
+  rewrite IH. reflexivity.
+Qed.
+
+Lemma take_lead_leading : forall p k, take_lead p k = leading p k.
+Proof.
+  induction p as [|[t a] p IH]; intros k; cbn [take_lead leading fst snd]; [reflexivity|].
+  unfold is_confed, SEG_CONFED_SEQUENCE, SEG_CONFED_SET, SEG_SET, SEG_SEQUENCE. cbn [fst snd].
+  destruct ((t =? 3) || (t =? 4)); [now rewrite IH|].
+  destruct (k <=? 0); [reflexivity|].
+  destruct (t =? 1); [now rewrite IH|].
+  rewrite IH. reflexivity.
+Qed.
+
+Lemma seg_chunks_split255 : forall fuel t l, seg_chunks fuel t l = split255 fuel t l.
+Proof.
+  induction fuel as [|f IH]; intros t l; cbn [seg_chunks split255]; [reflexivity|].
+  destruct l; [reflexivity|]. destruct (length (z :: l) <=? 255)%nat; [reflexivity|]. now rewrite IH.
+Qed.
+
+Lemma repack_wire_form p : repack p = wire_form p.
+Proof.
+  unfold repack, wire_form. induction p as [|sg p IH]; cbn [flat_map]; [reflexivity|].
+  now rewrite IH, seg_chunks_split255.
+Qed.
+
+Theorem merge_fixed_rfc p2 p4 : merge_fixed p2 p4 = VPath true (wire_form (rfc6793 p2 p4)).
+Proof.
+  unfold merge_fixed, rfc6793. rewrite !path_count_hops, repack_wire_form.
+  destruct (path_hops p2 <? path_hops p4) eqn:E.
+  - assert (path_hops p2 - path_hops p4 <? 0 = true) as -> by (apply Z.ltb_lt; apply Z.ltb_lt in E; lia). reflexivity.
+  - assert (path_hops p2 - path_hops p4 <? 0 = false) as -> by (apply Z.ltb_ge; apply Z.ltb_ge in E; lia).
+    now rewrite take_lead_leading.
+Qed.
+
+(* lookups in the collection *)
+Lemma aget_aremove_same m c : aget (aremove m c) c = None.
+Proof.
+  unfold aget, aremove. induction m as [|a m IH]; cbn; [reflexivity|].
+  destruct (a_code a =? c) eqn:E; cbn; [exact IH|]. rewrite E. exact IH.
+Qed.
+
+Lemma aget_aremove_other m c d : c <> d -> aget (aremove m c) d = aget m d.
+Proof.
+  intros Hcd. unfold aget, aremove. induction m as [|a m IH]; cbn; [reflexivity|].
+  destruct (a_code a =? c) eqn:E; cbn.
+  - apply Z.eqb_eq in E. assert (a_code a =? d = false) as -> by (apply Z.eqb_neq; congruence). exact IH.
+  - destruct (a_code a =? d); [reflexivity|exact IH].
+Qed.
+
+Lemma ahas_aget m c : ahas m c = match aget m c with Some _ => true | None => false end.
+Proof.
+  unfold ahas, aget. induction m as [|a m IH]; cbn; [reflexivity|]. destruct (a_code a =? c); cbn; auto.
+Qed.
+
+Lemma aget_aadd_new m a : aget m (a_code a) = None -> aget (aadd m a) (a_code a) = Some a.
+Proof.
+  intros H. unfold aadd. rewrite ahas_aget, H. unfold aget in *. assert (F : forall l1 l2, find (fun x => a_code x =? a_code a) (l1 ++ l2) = match find (fun x => a_code x =? a_code a) l1 with Some y => Some y | None => find (fun x => a_code x =? a_code a) l2 end) by (induction l1 as [|y l1 IHl]; intros l2; cbn; [reflexivity|]; destruct (a_code y =? a_code a); auto). rewrite F, H. cbn. now rewrite Z.eqb_refl.
+Qed.
+
+Lemma aget_aadd_other m a c : a_code a <> c -> aget (aadd m a) c = aget m c.
+Proof.
+  intros H. unfold aadd. destruct (ahas m (a_code a)); [reflexivity|].
+  unfold aget.
+  assert (F : forall l1 l2, find (fun x => a_code x =? c) (l1 ++ l2) = match find (fun x => a_code x =? c) l1 with Some y => Some y | None => find (fun x => a_code x =? c) l2 end) by (induction l1 as [|y l1 IHl]; intros l2; cbn; [reflexivity|]; destruct (a_code y =? c); auto).
+  rewrite F. destruct (find _ m); [reflexivity|]. cbn.
+  assert (a_code a =? c = false) as -> by (apply Z.eqb_neq; exact H). reflexivity.
+Qed.
+
+Theorem post_parse_merges m f2 f4 a2 a4 p2 p4 :
+  ahas m CODE_TREAT_AS_WITHDRAW = false ->
+  aget m A_AS_PATH = Some (mkA A_AS_PATH f2 (VPath a2 p2)) ->
+  aget m A_AS4_PATH = Some (mkA A_AS4_PATH f4 (VPath a4 p4)) ->
+  exists m', post_parse true m = POk m'
+    /\ aget m' A_AS_PATH = Some (mkA A_AS_PATH 64 (VPath true (wire_form (rfc6793 p2 p4))))
+    /\ aget m' A_AS4_PATH = None
+    /\ forall c, c <> A_AS_PATH -> c <> A_AS4_PATH -> aget m' c = aget m c.
+Proof.
+  intros Ht H2 H4. unfold post_parse. rewrite Ht, !ahas_aget, H2, H4. cbn [andb path_of].
+  eexists. split; [reflexivity|]. rewrite merge_fixed_rfc.
+  set (rest := aremove (aremove m A_AS_PATH) A_AS4_PATH).
+  assert (Hr : aget rest A_AS_PATH = None).
+  { unfold rest. rewrite aget_aremove_other by discriminate. apply aget_aremove_same. }
+  split; [|split].
+  - exact (aget_aadd_new rest (mkA A_AS_PATH 64 _) Hr).
+  - rewrite aget_aadd_other by discriminate. unfold rest. apply aget_aremove_same.
+  - intros c Hc2 Hc4. rewrite aget_aadd_other by (cbn; congruence).
+    unfold rest. rewrite aget_aremove_other by congruence. apply aget_aremove_other. congruence.
+Qed.
+
+(* the pinned merge: a crash and a lost path *)
+Theorem merge_pinned_refuted :
+  merge_pinned [(2, [23456])] [(2, [70000])] = None
+  /\ merge_pinned [(2, [65534])] [] = Some (VPath false [])
+  /\ wire_form (rfc6793 [(2, [23456])] [(2, [70000])]) = [(2, [70000])]
+  /\ wire_form (rfc6793 [(2, [65534])] []) = [(2, [65534])].
+Proof. repeat split; vm_compute; reflexivity. Qed.
+
+(* ------------------------------------------------------------------ End-of-RIB *)
+
+Theorem eor_v4 opq s : dec_update opq s [0;0;0;0] = EndOfRib 1 1.
+Proof. reflexivity. Qed.
+
+Theorem eor_prefix_form opq s afi safi :
+  0 <= afi < 65536 ->
+  dec_update opq s (EOR_PREFIX ++ [afi / 256; afi mod 256; safi]) = EndOfRib afi safi.
+Proof.
+  intros H. unfold dec_update, dec_update_gen. cbn [EOR_PREFIX app length zlen].
+  change (Z.of_nat 11 =? EOR_V4_LENGTH) with false. cbn [andb].
+  change (Z.of_nat 11 =? EOR_PREFIX_LENGTH) with true. 
+  change (is_prefix [0; 0; 0; 7; 144; 15; 0; 3] [0; 0; 0; 7; 144; 15; 0; 3; afi / 256; afi mod 256; safi]) with true.
+  cbn [andb skipn rd16 nth]. unfold rd16. cbn [nth]. replace (afi / 256 * 256 + afi mod 256) with afi; [reflexivity|]. pose proof (Z.div_mod afi 256 ltac:(lia)) as D. rewrite D at 1. ring.
+Qed.
+
+Definition eor_shape (opq : Z -> list Z -> vres) (s : sess) (b : list Z) : Prop :=
+  b = [0;0;0;0]
+  \/ (zlen b = 11 /\ firstn 8 b = EOR_PREFIX)
+  \/ (exists u m ab, parse_payload true opq s b = (Decoded u, m, ab) /\ u_ann u = [] /\ u_wd u = [] /\ u_attrs u = []).
+
+
+Lemma is_nil_true {A} (l : list A) : is_nil l = true -> l = [].
+Proof. destruct l; [reflexivity|discriminate]. Qed.
+
+Lemma payload_not_eor fixed opq s b a sf m ab : parse_payload fixed opq s b <> (EndOfRib a sf, m, ab).
+Proof.
+  unfold parse_payload.
+  destruct (split b) as [wb ab' nb|]; [|discriminate].
+  destruct (unpack_attrs fixed opq s ab') as [m'| |]; try discriminate.
+  destruct (nlri_loop (length wb) true _ 1 1 wb); [|discriminate].
+  destruct (nlri_loop (length nb) false _ 1 1 nb); [|discriminate].
+  destruct (match bytes_of (aget m' A_MP_UNREACH_NLRI) with Some v => mp_unreach_routes s v | None => Some [] end); [|discriminate].
+  destruct (match bytes_of (aget m' A_MP_REACH_NLRI) with Some v => mp_reach_routes s v | None => Some [] end); [|discriminate].
+  destruct (fixed && ahas m' CODE_TREAT_AS_WITHDRAW); discriminate.
+Qed.
+
+Theorem eor_only opq s b afi safi : dec_update opq s b = EndOfRib afi safi -> eor_shape opq s b.
+Proof.
+  unfold dec_update, dec_update_gen, eor_shape.
+  destruct ((zlen b =? EOR_V4_LENGTH) && list_eqb b [0;0;0;0]) eqn:E1.
+  { intros _. left. apply andb_prop in E1 as [_ E]. now apply list_eqb_true in E. }
+  destruct ((zlen b =? EOR_PREFIX_LENGTH) && is_prefix EOR_PREFIX b) eqn:E2.
+  { intros _. right; left. apply andb_prop in E2 as [El Ep]. apply Z.eqb_eq in El. unfold is_prefix in Ep.
+    apply list_eqb_true in Ep. split; [exact El|]. symmetry. exact Ep. }
+  destruct (parse_payload true opq s b) as [[o m] ab] eqn:Ep. destruct o as [c sc| |a sf|u]; try discriminate.
+  - exfalso. exact (payload_not_eor _ _ _ _ _ _ _ _ Ep).
+  - destruct (is_nil (u_attrs u) && is_nil (u_ann u) && is_nil (u_wd u)) eqn:En; [|discriminate].
+    intros _. right; right. apply andb_prop in En as [En E3]. apply andb_prop in En as [E4 E5].
+    exists u, m, ab. split; [reflexivity|]. split; [now apply is_nil_true|]. split; now apply is_nil_true.
+Qed.
+
+
+(* ------------------------------------------------------------------ flags: registered <-> no conflict (byte sweep) *)
+
+Definition bytes256 : list Z := map Z.of_nat (seq 0 256).
+Lemma in_bytes256 f : 0 <= f < 256 -> In f bytes256.
+Proof.
+  intros H. unfold bytes256. apply in_map_iff. exists (Z.to_nat f). split; [lia|]. apply in_seq. lia.
+Qed.
+
+Definition masked (aid f : Z) : Z := if is_optional aid then clrbit f F_PARTIAL else f.
+
+Lemma registered_sweep :
+  forallb (fun k => forallb (fun f => implb (registered k (masked k f)) (negb (flags_conflict k f))) bytes256)
+          registered_codes = true.
+Proof. vm_compute. reflexivity. Qed.
+
+Lemma registered_no_conflict k f :
+  In k registered_codes -> 0 <= f < 256 -> registered k (masked k f) = true -> flags_conflict k f = false.
+Proof.
+  intros Hk Hf Hr. pose proof registered_sweep as S.
+  rewrite forallb_forall in S. specialize (S k Hk). rewrite forallb_forall in S.
+  specialize (S f (in_bytes256 f Hf)). rewrite Hr in S. cbn in S. now apply negb_true_iff in S.
+Qed.
+
+(* ------------------------------------------------------------------ one turn of the parser *)
+
+Definition step_refuses (r : sres) : Prop := match r with SCont m => has_taw m = true | _ => True end.
+
+Lemma ahas_aadd_other m a c : a_code a <> c -> ahas (aadd m a) c = ahas m c.
+Proof.
+  intros H. unfold aadd. destruct (ahas m (a_code a)); [reflexivity|].
+  unfold ahas. rewrite existsb_app. cbn. assert (a_code a =? c = false) as -> by (apply Z.eqb_neq; exact H).
+  now rewrite !orb_false_r.
+Qed.
+
+Ltac break_step :=
+  repeat match goal with
+  | |- context [match ?x with _ => _ end] => destruct x eqn:?
+  end.
+
+Lemma step_keeps_taw opq s f aid dlen v m : has_taw m = true -> step_refuses (step true opq s f aid dlen v m).
+Proof.
+  intros H. unfold step. break_step; cbn [step_refuses]; auto; unfold has_taw in *;
+  repeat apply ahas_aadd_keep; auto.
+Qed.
+
+Lemma parse_keeps_taw opq s : forall fuel d m, has_taw m = true -> parse_refuses (parse fuel true opq s d m).
+Proof.
+  induction fuel as [|f IH]; intros d m H; cbn [parse]; destruct (next_tlv true d); cbn [parse_refuses];
+  auto; unfold has_taw in *; try (apply ahas_aadd_keep; exact H).
+  pose proof (step_keeps_taw opq s flag aid dlen value m H) as S.
+  destruct (step true opq s flag aid dlen value m); cbn in *; auto.
+Qed.
+
+Lemma step_other_codes opq s f aid dlen v m m' x :
+  step true opq s f aid dlen v m = SCont m' ->
+  x <> aid -> x <> CODE_TREAT_AS_WITHDRAW -> x <> CODE_DISCARD -> ahas m' x = ahas m x.
+Proof.
+  intros H Hx Ht Hd. unfold step in H. revert H. break_step; intros H; try discriminate; injection H as <-;
+  unfold taw, discard, pseudo; repeat (rewrite ahas_aadd_other by (cbn; congruence)); reflexivity.
+Qed.
+
+(* the branch taken when (aid, flag) is not a registration key of a known attribute *)
+Lemma step_wrong_flags opq s f aid dlen v m k :
+  klass_by_id aid = Some k -> ahas m aid = false -> registered aid (masked aid f) = false ->
+  ac_discard k = false -> step_refuses (step true opq s f aid dlen v m).
+Proof.
+  intros Hk Hm Hr Hd. unfold step. fold (masked aid f). rewrite Hm, Hr, Hk, Hd. cbn [andb].
+  destruct (ac_taw k); cbn [negb step_refuses]; unfold has_taw.
+  - exact (ahas_aadd m (taw None)).
+  - exact (ahas_aadd m (taw (Some aid))).
+Qed.
+
+Lemma step_registered opq s f aid v m k :
+  klass_by_id aid = Some k -> ahas m aid = false -> registered aid (masked aid f) = true ->
+  step true opq s f aid (zlen v) v m =
+    if (zlen v =? 0) && negb (ac_vzero k) then SCont (aadd m (taw (Some aid))) else
+    match unpack_value true opq s aid (zlen v) v with
+    | VOk x => SCont (aadd m (mkA aid (ac_flag k) x))
+    | VPseudoDiscard => SCont (aadd m (discard (Some aid)))
+    | VValueError => if ac_taw k then SCont (aadd m (taw (Some aid))) else
+                     if ac_discard k then SCont (aadd m (discard None)) else SExc
+    | VNotify c sc => if ac_taw k then SCont (aadd m (taw None)) else
+                      if ac_discard k then SCont (aadd m (discard None)) else SNotify c sc
+    | VOther => SExc
+    end.
+Proof.
+  intros Hk Hm Hr. unfold step. fold (masked aid f). rewrite Hm, Hr, Hk. reflexivity.
+Qed.
+
+(* the types whose RFC 7606 approach is treat-as-withdraw and whose value rule is proved here
+   (AS_PATH's segment structure is tied by the correspondence only) *)
+Definition taw_codes : list Z := [1; 3; 4; 5; 8; 9; 10; 16; 25; 32].
+
+Lemma taw_refuses m a : step_refuses (SCont (aadd m (taw a))).
+Proof. cbn. apply taw_has. Qed.
+
+Lemma step_malformed opq s other m f code v :
+  In code taw_codes -> 0 <= f < 256 -> ahas m code = false ->
+  flags_conflict code f || value_malformed other (s_asn4 s) code v = true ->
+  step_refuses (step true opq s f code (zlen v) v m).
+Proof.
+  intros Hc Hf Hm Hbad.
+  assert (Hreg : In code registered_codes).
+  { cbn in Hc. cbn. intuition. }
+  destruct (registered code (masked code f)) eqn:Hr.
+  2:{ cbn in Hc. repeat destruct Hc as [Hc|Hc]; try contradiction; subst code;
+      (eapply step_wrong_flags; [reflexivity|exact Hm|exact Hr|reflexivity]). }
+  rewrite (registered_no_conflict code f Hreg Hf Hr) in Hbad. cbn [orb] in Hbad.
+  cbn in Hc. repeat destruct Hc as [Hc|Hc]; try contradiction; subst code;
+  (erewrite step_registered; [|reflexivity|exact Hm|exact Hr]); cbn [ac_vzero ac_taw ac_discard ac_flag negb andb];
+  rewrite andb_true_r; destruct (zlen v =? 0) eqn:Ez; try apply taw_refuses.
+  - (* ORIGIN *)
+    change (unpack_value true opq s 1 (zlen v) v) with
+      (if zlen v =? 1 then (if 2 <? nth 0 v 0 then VValueError else VOk (VBytes v)) else VValueError).
+    change (value_malformed other (s_asn4 s) 1 v) with (negb ((zlen v =? 1) && (nth 0 v 0 <=? 2))) in Hbad.
+    destruct (zlen v =? 1); [|apply taw_refuses]. cbn [andb] in Hbad.
+    destruct (2 <? nth 0 v 0) eqn:E2; [apply taw_refuses|].
+    apply Z.ltb_ge in E2. apply negb_true_iff in Hbad. apply Z.leb_gt in Hbad. lia.
+  - (* NEXT_HOP *)
+    change (value_malformed other (s_asn4 s) 3 v) with (negb (zlen v =? 4)) in Hbad.
+    change (unpack_value true opq s 3 (zlen v) v) with
+      (if true && negb (zlen v =? 4) then VValueError else
+       match v with [] => VOk (VBytes []) | _ => if (zlen v =? 4) || (zlen v =? 16) then VOk (VBytes v) else VValueError end).
+    rewrite Hbad. apply taw_refuses.
+  - (* MED *)
+    change (value_malformed other (s_asn4 s) 4 v) with (negb (zlen v =? 4)) in Hbad.
+    change (unpack_value true opq s 4 (zlen v) v) with (len_is v 4). unfold len_is.
+    apply negb_true_iff in Hbad. rewrite Hbad. apply taw_refuses.
+  - (* LOCAL_PREF *)
+    change (value_malformed other (s_asn4 s) 5 v) with (negb (zlen v =? 4)) in Hbad.
+    change (unpack_value true opq s 5 (zlen v) v) with (len_is v 4). unfold len_is.
+    apply negb_true_iff in Hbad. rewrite Hbad. apply taw_refuses.
+  - (* COMMUNITY *)
+    change (value_malformed other (s_asn4 s) 8 v) with (negb ((0 <? zlen v) && (zlen v mod 4 =? 0))) in Hbad.
+    change (unpack_value true opq s 8 (zlen v) v) with (len_mult v 4 (VNotify 3 1)). unfold len_mult.
+    destruct (zlen v mod 4 =? 0) eqn:E4; [|exact I].
+    exfalso. apply negb_true_iff in Hbad. rewrite andb_true_r in Hbad. apply Z.ltb_ge in Hbad.
+    apply Z.eqb_neq in Ez. pose proof (zlen_nonneg v). lia.
+  - (* ORIGINATOR_ID *)
+    change (value_malformed other (s_asn4 s) 9 v) with (negb (zlen v =? 4)) in Hbad.
+    change (unpack_value true opq s 9 (zlen v) v) with (len_is v 4). unfold len_is.
+    apply negb_true_iff in Hbad. rewrite Hbad. apply taw_refuses.
+  - (* CLUSTER_LIST *)
+    change (value_malformed other (s_asn4 s) 10 v) with (negb ((0 <? zlen v) && (zlen v mod 4 =? 0))) in Hbad.
+    change (unpack_value true opq s 10 (zlen v) v) with (len_mult v 4 VValueError). unfold len_mult.
+    destruct (zlen v mod 4 =? 0) eqn:E4; [|apply taw_refuses].
+    exfalso. apply negb_true_iff in Hbad. rewrite andb_true_r in Hbad. apply Z.ltb_ge in Hbad.
+    apply Z.eqb_neq in Ez. pose proof (zlen_nonneg v). lia.
+  - (* EXTENDED_COMMUNITY *)
+    change (value_malformed other (s_asn4 s) 16 v) with (negb ((0 <? zlen v) && (zlen v mod 8 =? 0))) in Hbad.
+    change (unpack_value true opq s 16 (zlen v) v) with (len_mult v 8 (VNotify 3 1)). unfold len_mult.
+    destruct (zlen v mod 8 =? 0) eqn:E4; [|exact I].
+    exfalso. apply negb_true_iff in Hbad. rewrite andb_true_r in Hbad. apply Z.ltb_ge in Hbad.
+    apply Z.eqb_neq in Ez. pose proof (zlen_nonneg v). lia.
+  - (* IPV6_EXTENDED_COMMUNITY *)
+    change (value_malformed other (s_asn4 s) 25 v) with (negb ((0 <? zlen v) && (zlen v mod 20 =? 0))) in Hbad.
+    change (unpack_value true opq s 25 (zlen v) v) with (len_mult v 20 (VNotify 3 1)). unfold len_mult.
+    destruct (zlen v mod 20 =? 0) eqn:E4; [|exact I].
+    exfalso. apply negb_true_iff in Hbad. rewrite andb_true_r in Hbad. apply Z.ltb_ge in Hbad.
+    apply Z.eqb_neq in Ez. pose proof (zlen_nonneg v). lia.
+  - (* LARGE_COMMUNITY *)
+    change (value_malformed other (s_asn4 s) 32 v) with (negb ((0 <? zlen v) && (zlen v mod 12 =? 0))) in Hbad.
+    change (unpack_value true opq s 32 (zlen v) v) with
+      (if zlen v mod 12 =? 0 then VOk (VBytes (dedup12 v)) else VNotify 3 1).
+    destruct (zlen v mod 12 =? 0) eqn:E4; [|apply taw_refuses].
+    exfalso. apply negb_true_iff in Hbad. rewrite andb_true_r in Hbad. apply Z.ltb_ge in Hbad.
+    apply Z.eqb_neq in Ez. pose proof (zlen_nonneg v). lia.
+Qed.
+
+
+Lemma zlen_firstn_exact (l : list Z) n : 0 <= n <= zlen l -> zlen (firstn (Z.to_nat n) l) = n.
+Proof. intros H. unfold zlen in *. rewrite firstn_length. lia. Qed.
+
+Lemma wfb_cons_inv x l : wfb (x :: l) -> byte x /\ wfb l.
+Proof. intros H. inversion H; subst. split; assumption. Qed.
+
+(* the first attribute of the block with a given code is malformed => the parser refuses or records treat-as-withdraw *)
+Lemma parse_malformed opq s other : forall fuel d l m r,
+  wfb d -> tlvs fuel d = Some l -> find_raw l (r_code r) = Some r -> In (r_code r) taw_codes ->
+  flags_conflict (r_code r) (r_flags r) || value_malformed other (s_asn4 s) (r_code r) (r_val r) = true ->
+  ahas m (r_code r) = false ->
+  parse_refuses (parse fuel true opq s d m).
+Proof.
+  induction fuel as [|f IH]; intros d l m r Hw Ht Hfind Hin Hbad Hm.
+  - destruct d as [|fl [|c rest]]; cbn in Ht; try discriminate. injection Ht as <-. discriminate.
+  - destruct d as [|fl [|c rest]]; cbn [tlvs] in Ht; try discriminate.
+    { injection Ht as <-. discriminate. }
+    apply wfb_cons_inv in Hw as [Hfl Hw]. apply wfb_cons_inv in Hw as [Hcb Hw].
+    cbn [parse next_tlv]. rewrite hasbit_ext.
+    destruct (if f_extended fl then match rest with h :: l0 :: r0 => Some (h * 256 + l0, r0) | _ => None end
+              else match rest with l0 :: r0 => Some (l0, r0) | _ => None end) as [[len body]|] eqn:Eh; [|discriminate].
+    assert (Hlb : 0 <= len /\ wfb body).
+    { destruct (f_extended fl).
+      - destruct rest as [|h [|l0 r0]]; try discriminate. injection Eh as <- <-.
+        apply wfb_cons_inv in Hw as [Hh Hw]. apply wfb_cons_inv in Hw as [Hl0 Hw]. unfold byte in *. split; [lia|exact Hw].
+      - destruct rest as [|l0 r0]; try discriminate. injection Eh as <- <-.
+        apply wfb_cons_inv in Hw as [Hl0 Hw]. unfold byte in *. split; [lia|exact Hw]. }
+    destruct Hlb as [Hlen Hwb].
+    rewrite blen_zlen in Ht. cbn [andb].
+    destruct (zlen body <? len) eqn:El; [discriminate|]. apply Z.ltb_ge in El.
+    destruct (tlvs f (skipn (Z.to_nat len) body)) as [t|] eqn:Et; [|discriminate].
+    injection Ht as <-.
+    cbn [find_raw find r_code] in Hfind.
+    destruct (c =? r_code r) eqn:Ec.
+    + (* this is the malformed attribute *)
+      injection Hfind as <-. cbn [r_code r_flags r_val] in *.
+      pose proof (step_malformed opq s other m fl c (firstn (Z.to_nat len) body) Hin Hfl Hm Hbad) as S.
+      rewrite zlen_firstn_exact in S by lia.
+      destruct (step true opq s fl c len (firstn (Z.to_nat len) body) m) as [m'| |]; cbn in *; auto.
+      apply parse_keeps_taw. exact S.
+    + destruct (step true opq s fl c len (firstn (Z.to_nat len) body) m) as [m'| |] eqn:Es; cbn; auto.
+      apply (IH _ t m' r); auto.
+      * apply wfb_skipn. exact Hwb.
+      * apply Z.eqb_neq in Ec.
+        rewrite (step_other_codes _ _ _ _ _ _ _ _ _ Es); auto.
+        -- intros E; rewrite E in Hin; cbn in Hin; intuition discriminate.
+        -- intros E; rewrite E in Hin; cbn in Hin; intuition discriminate.
+Qed.
+
+Theorem rfc7606_taw opq s other b wb ab nb l r :
+  wfb b -> sections b = Some (wb, ab, nb) -> tlvs (length ab) ab = Some l ->
+  find_raw l (r_code r) = Some r -> In (r_code r) taw_codes ->
+  flags_conflict (r_code r) (r_flags r) || value_malformed other (s_asn4 s) (r_code r) (r_val r) = true ->
+  no_announce (dec_update opq s b).
+Proof.
+  intros Hw Hs Ht Hf Hin Hbad. destruct (marker_blocks b wb ab nb Hs) as [M1 M2].
+  assert (Hwa : wfb ab).
+  { unfold sections in Hs.
+    destruct (blen b <? 4); [discriminate|]. destruct (blen b <? 4 + be16 b); [discriminate|].
+    match type of Hs with (if ?c then _ else _) = _ => destruct c; [discriminate|] end.
+    injection Hs as _ <- _. apply wfb_firstn. apply wfb_skipn. exact Hw. }
+  apply (refuses_no_announce opq s b wb ab nb Hs).
+  - apply (parse_malformed opq s other (length ab) ab l [] r); auto.
+  - destruct ((zlen b =? EOR_V4_LENGTH) && list_eqb b [0;0;0;0]); [|reflexivity].
+    rewrite M1 in Ht by reflexivity. injection Ht as <-. discriminate.
+  - destruct ((zlen b =? EOR_PREFIX_LENGTH) && is_prefix EOR_PREFIX b); [|reflexivity].
+    destruct (M2 eq_refl) as (x & y & z & M). rewrite M in Ht. injection Ht as <-.
+    cbn [find_raw find r_code] in Hf. destruct (15 =? r_code r) eqn:E; [|discriminate].
+    apply Z.eqb_eq in E. rewrite <- E in Hin. cbn in Hin. intuition discriminate.
+Qed.
+
+(* whatever the body: a recorded treat-as-withdraw never leaves an announced route *)
+Lemma has_taw_remove_inv m c : has_taw (aremove m c) = true -> has_taw m = true.
+Proof.
+  unfold has_taw, ahas, aremove. induction m as [|a m IH]; cbn; [auto|].
+  destruct (a_code a =? c); cbn.
+  - intros H. rewrite (IH H). apply orb_true_r.
+  - destruct (a_code a =? CODE_TREAT_AS_WITHDRAW); cbn; auto.
+Qed.
+
+Theorem taw_never_announces opq s b u :
+  dec_update opq s b = Decoded u -> has_taw (u_attrs u) = true -> u_ann u = [].
+Proof.
+  unfold dec_update, dec_update_gen.
+  destruct ((zlen b =? EOR_V4_LENGTH) && list_eqb b [0;0;0;0]); [discriminate|].
+  destruct ((zlen b =? EOR_PREFIX_LENGTH) && is_prefix EOR_PREFIX b); [discriminate|].
+  pose proof (payload_taw opq s b) as P. revert P.
+  unfold parse_payload.
+  destruct (split b) as [wb ab nb|]; [|discriminate].
+  destruct (unpack_attrs true opq s ab) as [m| |]; try discriminate.
+  destruct (nlri_loop (length wb) true _ 1 1 wb); [|discriminate].
+  destruct (nlri_loop (length nb) false _ 1 1 nb); [|discriminate].
+  destruct (match bytes_of (aget m A_MP_UNREACH_NLRI) with Some v => mp_unreach_routes s v | None => Some [] end); [|discriminate].
+  destruct (match bytes_of (aget m A_MP_REACH_NLRI) with Some v => mp_reach_routes s v | None => Some [] end); [|discriminate].
+  cbn [andb]. destruct (ahas m CODE_TREAT_AS_WITHDRAW) eqn:Hm.
+  - intros _. cbn [u_attrs u_ann u_wd].
+    match goal with |- (if ?c then _ else _) = _ -> _ => destruct c end; intros H;
+      [repeat (match type of H with context [match ?x with _ => _ end] => destruct x end); discriminate|].
+    injection H as <-. reflexivity.
+  - intros _. cbn [u_attrs u_ann u_wd].
+    match goal with |- (if ?c then _ else _) = _ -> _ => destruct c end; intros H;
+      [repeat (match type of H with context [match ?x with _ => _ end] => destruct x end); discriminate|].
+    injection H as <-. cbn [u_attrs]. intros Ht. apply has_taw_remove_inv in Ht. apply has_taw_remove_inv in Ht.
+    unfold has_taw in Ht. congruence.
+Qed.
+
+
+(* ------------------------------------------------------------------ witnesses (the pinned generation) *)
+
+Definition s_v4 : sess := mkS true [(1, 1)] [].
+Definition no_opq : Z -> list Z -> vres := fun _ _ => VValueError.
+Definition rs_of (s : sess) : rsess := mkRS (s_asn4 s) (s_fams s) (s_addpath s).
+
+(* ORIGIN igp, AS_PATH ( 65001 ), NEXT_HOP 10.0.0.1 *)
+Definition base_attrs : list Z := [64;1;1;0; 64;2;6;2;1;0;0;253;233; 64;3;4;10;0;0;1].
+Definition body_of (attrs nlri : list Z) : list Z :=
+  [0; 0; zlen attrs / 256; zlen attrs mod 256] ++ attrs ++ nlri.
+
+(* D5: MED of length 3, NLRI 10.1.2.0/24 *)
+Definition w_med3 : list Z := body_of (base_attrs ++ [128;4;3;0;0;7]) [24;10;1;2].
+(* D5: COMMUNITY declaring 8 bytes, 4 left in the block *)
+Definition w_overrun : list Z := body_of (base_attrs ++ [192;8;8;253;232;0;1]) [24;10;1;2].
+
+Definition announces (o : outcome) : list (nlri * list Z) := match o with Decoded u => u_ann u | _ => [] end.
+Definition attrs_of (o : outcome) : amap := match o with Decoded u => u_attrs u | _ => [] end.
+
+Lemma w_med3_pinned :
+  verdict (fun _ _ => false) (rs_of s_v4) w_med3 = [1;0; 2;0; 3;0; 4;1]
+  /\ announces (dec_update_pinned no_opq s_v4 w_med3) = [(mkN 1 1 None [] [] 24 [10;1;2], [10;0;0;1])]
+  /\ ahas (attrs_of (dec_update_pinned no_opq s_v4 w_med3)) CODE_TREAT_AS_WITHDRAW = true.
+Proof. repeat split; vm_compute; reflexivity. Qed.
+
+Lemma w_med3_fixed :
+  exists u, dec_update no_opq s_v4 w_med3 = Decoded u /\ u_ann u = [] /\ u_wd u = [mkN 1 1 None [] [] 24 [10;1;2]].
+Proof. eexists. repeat split; vm_compute; reflexivity. Qed.
+
+Lemma w_overrun_pinned :
+  exists wb ab nb, sections w_overrun = Some (wb, ab, nb) /\ tlvs (length ab) ab = None
+  /\ announces (dec_update_pinned no_opq s_v4 w_overrun) = [(mkN 1 1 None [] [] 24 [10;1;2], [10;0;0;1])]
+  /\ aget (attrs_of (dec_update_pinned no_opq s_v4 w_overrun)) A_COMMUNITY = Some (mkA 8 192 (VBytes [253;232;0;1]))
+  /\ ahas (attrs_of (dec_update_pinned no_opq s_v4 w_overrun)) CODE_TREAT_AS_WITHDRAW = false.
+Proof. do 3 eexists. repeat split; vm_compute; reflexivity. Qed.
+
+(* COMMUNITY with the Optional bit cleared: dropped silently by the pinned generation, route announced without it *)
+Definition w_flags : list Z := body_of (base_attrs ++ [64;8;4;253;232;0;1]) [24;10;1;2].
+Lemma w_flags_pinned :
+  verdict (fun _ _ => false) (rs_of s_v4) w_flags = [1;0; 2;0; 3;0; 8;1]
+  /\ announces (dec_update_pinned no_opq s_v4 w_flags) = [(mkN 1 1 None [] [] 24 [10;1;2], [10;0;0;1])]
+  /\ ahas (attrs_of (dec_update_pinned no_opq s_v4 w_flags)) CODE_TREAT_AS_WITHDRAW = false
+  /\ aget (attrs_of (dec_update_pinned no_opq s_v4 w_flags)) A_COMMUNITY = None
+  /\ announces (dec_update no_opq s_v4 w_flags) = [].
+Proof. repeat split; vm_compute; reflexivity. Qed.
+
+(* malformed AGGREGATOR (discard class): the pinned read_message drops the whole UPDATE *)
+Definition w_aggr : list Z := body_of (base_attrs ++ [192;7;3;1;2;3]) [24;10;1;2].
+Lemma w_aggr_rib :
+  exists u, dec_update_pinned no_opq s_v4 w_aggr = Decoded u /\ u_ann u <> [] /\ aget (u_attrs u) A_AGGREGATOR = None
+  /\ ribin_apply false [] u = [] /\ length (ribin_apply true [] u) = 1%nat.
+Proof. eexists. repeat split; try (vm_compute; reflexivity). vm_compute. discriminate. Qed.
+
+(* non-vacuity for the End-of-RIB statements: ipv6 unicast as an MP_UNREACH_NLRI with no route, written
+   without the extended-length bit (10 bytes: the third recognition path) *)
+Lemma eor_third_path :
+  dec_update no_opq (mkS true [(1,1);(2,1)] []) [0;0;0;6;128;15;3;0;2;1] = EndOfRib 2 1
+  /\ dec_update no_opq (mkS true [(1,1);(2,1)] []) [0;0;0;3;128;99;0] = EndOfRib 1 1.
+Proof. split; vm_compute; reflexivity. Qed.
+
+
+(* ------------------------------------------------------------------ C02: the attribute set of a well-formed block *)
+
+Lemma hasbit_pow f m : m = 32 \/ m = 64 -> hasbit f m = (m <=? f mod (2 * m)).
+Proof.
+  intros Hm. unfold hasbit.
+  destruct ((f / m) mod 2 =? 1) eqn:E; destruct (m <=? f mod (2 * m)) eqn:E2; try reflexivity;
+  [apply Z.eqb_eq in E; apply Z.leb_gt in E2 | apply Z.eqb_neq in E; apply Z.leb_le in E2];
+  exfalso; destruct Hm; subst m;
+  match goal with |- _ => 
+  pose proof (Z.div_mod f 32 ltac:(lia)); pose proof (Z.mod_pos_bound f 32 ltac:(lia));
+  pose proof (Z.div_mod f 64 ltac:(lia)); pose proof (Z.mod_pos_bound f 64 ltac:(lia));
+  pose proof (Z.div_mod f 128 ltac:(lia)); pose proof (Z.mod_pos_bound f 128 ltac:(lia));
+  pose proof (Z.div_mod (f / 32) 2 ltac:(lia)); pose proof (Z.mod_pos_bound (f / 32) 2 ltac:(lia));
+  pose proof (Z.div_mod (f / 64) 2 ltac:(lia)); pose proof (Z.mod_pos_bound (f / 64) 2 ltac:(lia)) end;
+  change (2 * 32) with 64 in *; change (2 * 64) with 128 in *; lia.
+Qed.
+
+Definition wf_flags (k f : Z) : bool :=
+  (f_unused f =? 0) && (f_optional f || negb (f_partial f)) && negb (flags_conflict k f).
+
+Lemma wellformed_sweep :
+  forallb (fun k => forallb (fun f => implb (wf_flags k f) (registered k (masked k f))) bytes256) registered_codes = true.
+Proof. vm_compute. reflexivity. Qed.
+
+Lemma wellformed_registered k f :
+  In k registered_codes -> 0 <= f < 256 -> wf_flags k f = true -> registered k (masked k f) = true.
+Proof.
+  intros Hk Hf Hw. pose proof wellformed_sweep as S.
+  rewrite forallb_forall in S. specialize (S k Hk). rewrite forallb_forall in S.
+  specialize (S f (in_bytes256 f Hf)). rewrite Hw in S. exact S.
+Qed.
+
+Lemma unknown_sweep :
+  forallb (fun c => implb (match category_of c with None => true | Some _ => false end)
+                          (match klass_by_id c with None => true | Some _ => false end)) bytes256 = true.
+Proof. vm_compute. reflexivity. Qed.
+
+Lemma unknown_no_class c : 0 <= c < 256 -> category_of c = None -> klass_by_id c = None.
+Proof.
+  intros Hc Hn. pose proof unknown_sweep as S. rewrite forallb_forall in S.
+  specialize (S c (in_bytes256 c Hc)). rewrite Hn in S. cbn in S. destruct (klass_by_id c); [discriminate|reflexivity].
+Qed.
+
+Definition entry_of (a : attr) : Z * Z * sval :=
+  (a_code a, a_flag a, match a_val a with VBytes b => SBytes b | VPath _ p => SPath p end).
+
+(* the types whose value is reported as the bytes received, proved here; AS paths, LARGE_COMMUNITY and
+   the MP attributes are tied by the correspondence only *)
+Definition scalar_codes : list Z := [1; 3; 4; 5; 6; 7; 8; 9; 10; 16; 18; 25].
+
+Definition simple (r : raw) : bool :=
+  zin (r_code r) scalar_codes || match category_of (r_code r) with None => true | Some _ => false end.
+
+Lemma aadd_new m a : ahas m (a_code a) = false -> aadd m a = m ++ [a].
+Proof. intros H. unfold aadd. now rewrite H. Qed.
+
+Lemma cont_add m a e : ahas m (a_code a) = false -> entry_of a = e ->
+  exists m', SCont (aadd m a) = SCont m' /\ map entry_of m' = map entry_of m ++ [e]
+             /\ (forall x, x <> a_code a -> ahas m' x = ahas m x).
+Proof.
+  intros Hm He. eexists. split; [reflexivity|]. split.
+  - rewrite aadd_new by exact Hm. rewrite map_app. cbn. now rewrite He.
+  - intros x Hx. apply ahas_aadd_other. congruence.
+Qed.
+
+Ltac len4 Hval v code :=
+  change (value_malformed _ _ code v) with (negb (zlen v =? 4)) in Hval;
+  apply negb_false_iff in Hval;
+  match goal with |- context [unpack_value true ?o ?s code (zlen v) v] =>
+    change (unpack_value true o s code (zlen v) v) with (len_is v 4) end;
+  unfold len_is; rewrite Hval; apply Z.eqb_eq in Hval;
+  assert (zlen v =? 0 = false) as -> by (apply Z.eqb_neq; lia); cbn [andb].
+
+Ltac lenmult Hval v code n bad :=
+  change (value_malformed _ _ code v) with (negb ((0 <? zlen v) && (zlen v mod n =? 0))) in Hval;
+  apply negb_false_iff in Hval; apply andb_prop in Hval as [Hpos Hmod];
+  match goal with |- context [unpack_value true ?o ?s code (zlen v) v] =>
+    change (unpack_value true o s code (zlen v) v) with (len_mult v n bad) end;
+  unfold len_mult; rewrite Hmod; apply Z.ltb_lt in Hpos;
+  assert (zlen v =? 0 = false) as -> by (apply Z.eqb_neq; lia); cbn [andb].
+
+Lemma step_wellformed opq s other m r :
+  attr_wellformed other (rs_of s) r = true -> simple r = true ->
+  0 <= r_code r < 256 -> ahas m (r_code r) = false ->
+  exists m', step true opq s (r_flags r) (r_code r) (zlen (r_val r)) (r_val r) m = SCont m'
+             /\ map entry_of m' = map entry_of m ++ attr_entry (rs_of s) r
+             /\ (forall x, x <> r_code r -> ahas m' x = ahas m x).
+Proof.
+  destruct r as [f code v]. cbn [r_flags r_code r_val]. intros Hwf Hs Hcode Hm.
+  unfold attr_wellformed in Hwf. cbn [r_flags r_code r_val] in Hwf.
+  apply andb_prop in Hwf as [Hwf Hcat]. apply andb_prop in Hwf as [Hwf Hpart].
+  apply andb_prop in Hwf as [Hwf Hhi]. apply andb_prop in Hwf as [Hlow Hlo].
+  assert (Hf : 0 <= f < 256) by (apply Z.leb_le in Hlo; apply Z.ltb_lt in Hhi; lia).
+  unfold simple in Hs. cbn [r_code] in Hs.
+  destruct (category_of code) as [cat|] eqn:Ecat.
+  - (* a recognised scalar attribute *)
+    rewrite orb_false_r in Hs. apply andb_prop in Hcat as [Hconf Hval].
+    assert (Hreg : registered code (masked code f) = true).
+    { apply wellformed_registered; auto.
+      - unfold zin in Hs. cbn in Hs. cbn.
+        repeat match type of Hs with (?a =? ?b) || _ = true => destruct (Z.eqb_spec a b); [subst; intuition|cbn [orb] in Hs] end.
+        discriminate.
+      - unfold wf_flags. now rewrite Hlow, Hpart, Hconf. }
+    apply negb_true_iff in Hval. cbn [rs_asn4 rs_of] in Hval.
+    unfold zin in Hs. cbn [existsb scalar_codes] in Hs.
+    repeat match type of Hs with
+    | (?a =? ?b) || _ = true => destruct (Z.eqb_spec a b); [subst code; clear Hs|cbn [orb] in Hs]
+    | false = true => discriminate
+    end;
+    (erewrite step_registered; [|reflexivity|exact Hm|exact Hreg]); cbn [ac_vzero ac_taw ac_discard ac_flag negb andb];
+    unfold attr_entry; cbn [r_code r_val r_flags]; injection Ecat as <-; cbn [category_flags orb Z.eqb Pos.eqb].
+    + (* ORIGIN *)
+      change (value_malformed other (s_asn4 s) 1 v) with (negb ((zlen v =? 1) && (nth 0 v 0 <=? 2))) in Hval.
+      apply negb_false_iff in Hval. apply andb_prop in Hval as [H1 H2].
+      change (unpack_value true opq s 1 (zlen v) v) with
+        (if zlen v =? 1 then (if 2 <? nth 0 v 0 then VValueError else VOk (VBytes v)) else VValueError).
+      rewrite H1. apply Z.eqb_eq in H1. assert (zlen v =? 0 = false) as -> by (apply Z.eqb_neq; lia). cbn [andb].
+      assert (2 <? nth 0 v 0 = false) as -> by (apply Z.ltb_ge; apply Z.leb_le in H2; lia).
+      apply cont_add; [exact Hm|reflexivity].
+    + (* NEXT_HOP *)
+      change (value_malformed other (s_asn4 s) 3 v) with (negb (zlen v =? 4)) in Hval. apply negb_false_iff in Hval.
+      change (unpack_value true opq s 3 (zlen v) v) with
+        (if true && negb (zlen v =? 4) then VValueError else
+         match v with [] => VOk (VBytes []) | _ => if (zlen v =? 4) || (zlen v =? 16) then VOk (VBytes v) else VValueError end).
+      rewrite Hval. cbn [negb andb orb]. apply Z.eqb_eq in Hval.
+      assert (zlen v =? 0 = false) as -> by (apply Z.eqb_neq; lia). cbn [andb].
+      destruct v as [|v0 v']; [cbn in Hval; lia|]. apply cont_add; [exact Hm|reflexivity].
+    + len4 Hval v 4. apply cont_add; [exact Hm|reflexivity].
+    + len4 Hval v 5. apply cont_add; [exact Hm|reflexivity].
+    + (* ATOMIC_AGGREGATE *)
+      change (value_malformed other (s_asn4 s) 6 v) with (negb (zlen v =? 0)) in Hval. apply negb_false_iff in Hval.
+      change (unpack_value true opq s 6 (zlen v) v) with (len_is v 0). unfold len_is. rewrite Hval. cbn [andb].
+      apply cont_add; [exact Hm|reflexivity].
+    + (* AGGREGATOR *)
+      change (value_malformed other (s_asn4 s) 7 v) with (negb (zlen v =? (if s_asn4 s then 8 else 6))) in Hval.
+      apply negb_false_iff in Hval.
+      change (unpack_value true opq s 7 (zlen v) v) with (len_is v (if s_asn4 s then 8 else 6)). unfold len_is.
+      rewrite Hval. apply Z.eqb_eq in Hval.
+      assert (zlen v =? 0 = false) as -> by (apply Z.eqb_neq; destruct (s_asn4 s); lia). cbn [andb].
+      apply cont_add; [exact Hm|reflexivity].
+    + lenmult Hval v 8 4 (VNotify 3 1). apply cont_add; [exact Hm|reflexivity].
+    + len4 Hval v 9. apply cont_add; [exact Hm|reflexivity].
+    + lenmult Hval v 10 4 VValueError. apply cont_add; [exact Hm|reflexivity].
+    + lenmult Hval v 16 8 (VNotify 3 1). apply cont_add; [exact Hm|reflexivity].
+    + (* AS4_AGGREGATOR *)
+      change (value_malformed other (s_asn4 s) 18 v) with (negb (zlen v =? 8)) in Hval. apply negb_false_iff in Hval.
+      change (unpack_value true opq s 18 (zlen v) v) with (len_is v 8). unfold len_is. rewrite Hval.
+      apply Z.eqb_eq in Hval. assert (zlen v =? 0 = false) as -> by (apply Z.eqb_neq; lia). cbn [andb].
+      apply cont_add; [exact Hm|reflexivity].
+    + lenmult Hval v 25 20 (VNotify 3 1). apply cont_add; [exact Hm|reflexivity].
+  - (* an unrecognised attribute: optional; transitive ones are kept with the Partial bit, the others dropped *)
+    pose proof (unknown_no_class code Hcode Ecat) as Hk.
+    unfold step, is_optional, registered. rewrite Hk, Hm. unfold attr_entry. cbn [r_code r_flags r_val]. rewrite Ecat.
+    change F_TRANSITIVE with 64. change F_PARTIAL with 32.
+    rewrite (hasbit_pow f 64) by auto. change (2 * 64) with 128. fold (f_transitive f).
+    destruct (f_transitive f).
+    + unfold setbit. rewrite (hasbit_pow f 32) by auto. change (2 * 32) with 64. fold (f_partial f).
+      apply cont_add; [exact Hm|]. unfold entry_of. cbn [a_code a_flag a_val]. reflexivity.
+    + exists m. split; [reflexivity|]. split; [now rewrite app_nil_r|auto].
+Qed.
+
+Lemma simple_not_path r : simple r = true -> r_code r <> 2 /\ r_code r <> 17.
+Proof.
+  unfold simple. intros H. split; intros E; rewrite E in H; vm_compute in H; discriminate.
+Qed.
+
+Lemma attrs_agree opq s other : forall fuel d l m,
+  wfb d -> tlvs fuel d = Some l ->
+  forallb (attr_wellformed other (rs_of s)) l = true -> forallb simple l = true -> nodup_codes l = true ->
+  (forall r, In r l -> ahas m (r_code r) = false) ->
+  exists m', parse fuel true opq s d m = POk m'
+    /\ map entry_of m' = map entry_of m ++ flat_map (attr_entry (rs_of s)) l
+    /\ (forall x, (forall r, In r l -> r_code r <> x) -> ahas m' x = ahas m x)
+    /\ Forall (fun r => 0 <= r_code r < 256) l.
+Proof.
+  induction fuel as [|f IH]; intros d l m Hw Ht Hwf Hsi Hnd Hm.
+  - destruct d as [|fl [|c rest]]; cbn in Ht; try discriminate. injection Ht as <-.
+    exists m. cbn. rewrite app_nil_r. auto.
+  - destruct d as [|fl [|c rest]]; cbn [tlvs] in Ht; try discriminate.
+    { injection Ht as <-. exists m. cbn. rewrite app_nil_r. auto. }
+    apply wfb_cons_inv in Hw as [Hfl Hw]. apply wfb_cons_inv in Hw as [Hcb Hw].
+    cbn [parse next_tlv]. rewrite hasbit_ext.
+    destruct (if f_extended fl then match rest with h :: l0 :: r0 => Some (h * 256 + l0, r0) | _ => None end
+              else match rest with l0 :: r0 => Some (l0, r0) | _ => None end) as [[len body]|] eqn:Eh; [|discriminate].
+    assert (Hlb : 0 <= len /\ wfb body).
+    { destruct (f_extended fl).
+      - destruct rest as [|h [|l0 r0]]; try discriminate. injection Eh as <- <-.
+        apply wfb_cons_inv in Hw as [Hh Hw]. apply wfb_cons_inv in Hw as [Hl0 Hw]. unfold byte in *. split; [lia|exact Hw].
+      - destruct rest as [|l0 r0]; try discriminate. injection Eh as <- <-.
+        apply wfb_cons_inv in Hw as [Hl0 Hw]. unfold byte in *. split; [lia|exact Hw]. }
+    destruct Hlb as [Hlen Hwb].
+    rewrite blen_zlen in Ht. cbn [andb].
+    destruct (zlen body <? len) eqn:El; [discriminate|]. apply Z.ltb_ge in El.
+    destruct (tlvs f (skipn (Z.to_nat len) body)) as [t|] eqn:Et; [|discriminate].
+    injection Ht as <-.
+    cbn [forallb] in Hwf, Hsi. apply andb_prop in Hwf as [Hwf0 Hwft]. apply andb_prop in Hsi as [Hsi0 Hsit].
+    cbn [nodup_codes r_code] in Hnd. apply andb_prop in Hnd as [Hnd0 Hndt].
+    set (r0 := mkRaw fl c (firstn (Z.to_nat len) body)) in *.
+    assert (Hm0 : ahas m (r_code r0) = false) by (apply Hm; left; reflexivity).
+    destruct (step_wellformed opq s other m r0 Hwf0 Hsi0 Hcb Hm0) as (m1 & Hs1 & He1 & Hk1).
+    cbn [r_flags r_code r_val r0] in Hs1. rewrite zlen_firstn_exact in Hs1 by lia. rewrite Hs1.
+    assert (Hfresh : forall r, In r t -> r_code r <> c).
+    { intros r Hr E. apply negb_true_iff in Hnd0.
+      assert (existsb (fun x => r_code x =? c) t = true); [|congruence].
+      apply existsb_exists. exists r. split; [exact Hr|]. now apply Z.eqb_eq. }
+    destruct (IH (skipn (Z.to_nat len) body) t m1) as (m' & Hp & He & Hk & Hb); auto.
+    { apply wfb_skipn. exact Hwb. }
+    { intros r Hr. rewrite Hk1 by (cbn; apply Hfresh; exact Hr). apply Hm. right. exact Hr. }
+    exists m'. split; [exact Hp|]. split; [|split].
+    + rewrite He, He1. cbn [flat_map]. now rewrite <- app_assoc.
+    + intros x Hx. rewrite Hk by (intros r Hr; apply Hx; right; exact Hr).
+      apply Hk1. cbn. intros E. apply (Hx r0); [left; reflexivity|]. cbn. congruence.
+    + constructor; [exact Hcb|exact Hb].
+Qed.
+
+(* C02, attribute part: a well-formed block of scalar and unrecognised attributes, in any order, with or
+   without the extended-length bit, with or without the Partial bit on optional attributes, is reported
+   exactly as the reference reports it: no treat-as-withdraw, no discard, nothing dropped or invented *)
+Theorem attributes_agree opq s other ab l :
+  wfb ab -> tlvs (length ab) ab = Some l ->
+  forallb (attr_wellformed other (rs_of s)) l = true -> nodup_codes l = true -> forallb simple l = true ->
+  exists m, unpack_attrs true opq s ab = POk m /\ map entry_of m = flat_map (attr_entry (rs_of s)) l.
+Proof.
+  intros Hw Ht Hwf Hnd Hsi.
+  destruct (attrs_agree opq s other (length ab) ab l [] Hw Ht Hwf Hsi Hnd (fun _ _ => eq_refl)) as (m & Hp & He & Hk & Hb).
+  exists m. split; [|exact He].
+  unfold unpack_attrs. rewrite Hp. unfold post_parse.
+  assert (Hnone : forall x, (x = CODE_TREAT_AS_WITHDRAW \/ x = A_AS_PATH) -> ahas m x = false).
+  { intros x Hx. rewrite Hk; [reflexivity|]. intros r Hr E.
+    rewrite Forall_forall in Hb. specialize (Hb r Hr).
+    rewrite forallb_forall in Hsi. specialize (Hsi r Hr). apply simple_not_path in Hsi as [S2 S17].
+    destruct Hx as [-> | ->]; [rewrite E in Hb; unfold CODE_TREAT_AS_WITHDRAW in Hb; lia|exact (S2 E)]. }
+  rewrite (Hnone CODE_TREAT_AS_WITHDRAW) by auto. rewrite (Hnone A_AS_PATH) by auto. reflexivity.
+Qed.
